@@ -423,19 +423,21 @@ def run_job(job):
     return res
 
 
-def _discharge_with_model(name, hyps, goal, timeout, axioms, want_smt2=False, psolver=None):
+def _discharge_with_model(name, hyps, goal, timeout, axioms, want_smt2=False, psolver=None, _depth=0):
     """Decide hyps ∧ axioms ⇒ goal.  z3 incrementally on the path solver, then a fresh z3, then cvc5."""
     t0 = time.time()
     g = z3.simplify(goal)
     if z3.is_true(g):
         return Verdict(name, "proved", "z3-simplify", time.time() - t0)
     smt2 = None
+    is_conj = z3.is_and(goal) and goal.num_args() > 1 and _depth < 2
     if psolver is not None and not want_smt2:
         psolver.push()
         try:
             for a in axioms:
                 psolver.add(a)
             psolver.add(z3.Not(goal))
+            psolver.set("timeout", int((min(timeout, 3.0) if is_conj else timeout) * 1000))
             r = psolver.check()
             if r == z3.unsat:
                 return Verdict(name, "proved", "z3", time.time() - t0)
@@ -448,7 +450,8 @@ def _discharge_with_model(name, hyps, goal, timeout, axioms, want_smt2=False, ps
         finally:
             psolver.pop()
     s = z3.Solver()
-    s.set("timeout", int(timeout * 1000))
+    whole_timeout = timeout if not (z3.is_and(goal) and goal.num_args() > 1 and _depth < 2) else min(timeout, 3.0)
+    s.set("timeout", int(whole_timeout * 1000))
     for h in hyps:
         s.add(h)
     for a in axioms:
@@ -465,6 +468,16 @@ def _discharge_with_model(name, hyps, goal, timeout, axioms, want_smt2=False, ps
     reason = s.reason_unknown()
     from .explore import run_cvc5
 
+    # a conjunction that is too hard as a whole is discharged conjunct by conjunct (sound: all must hold)
+    if z3.is_and(goal) and goal.num_args() > 1 and _depth < 2:
+        parts = []
+        for gi in goal.children():
+            pv = _discharge_with_model(name, hyps, gi, timeout, axioms, psolver=None, _depth=_depth + 1)
+            if pv.status != "proved":
+                pv.time_s = time.time() - t0
+                return pv
+            parts.append(pv.backend)
+        return Verdict(name, "proved", "cvc5" if "cvc5" in parts else "z3", time.time() - t0, smt2=smt2)
     script = s.to_smt2()
     res, err = run_cvc5(script, timeout)
     if res == "unsat":
